@@ -100,6 +100,26 @@ def build_jobs(tier: str):
         if tier == 'thorough' and rng.random() < 0.3 and 'Do AddOn Calculations' not in q:
             q['Construction Years'] = rng.randint(1, 14)
         jobs.append((tag, gen.to_text(q)))
+    # one-figure neighbours, run right after their base in the same process (sim.run_chains): a schedule built for one run must not be
+    # served to the next one that shares most, but not all, of its arguments
+    chains = []
+    names = ['Inflation Rate', 'Production Tax Credit Duration', 'Production Tax Credit Electricity', 'Production Tax Credit Heat',
+             'Production Tax Credit Cooling', 'Production Tax Credit Inflation Adjusted', 'Starting Electricity Sale Price',
+             'Ending Electricity Sale Price', 'Electricity Escalation Rate Per Year', 'Electricity Escalation Start Year',
+             'Starting Heat Sale Price', 'Ending Heat Sale Price', 'Heat Escalation Rate Per Year', 'Heat Escalation Start Year']
+    for tag, text, p in gen.grid(seed() * 31 + 1602, 24 if tier == 'quick' else 200, lifetimes=lifetimes):
+        q = dict(p)
+        gen.add_prices(q, rng)
+        gen.add_ptc(q, rng)
+        if len(chains) % 2 == 0:
+            q['Production Tax Credit Inflation Adjusted'] = 'True'
+            q['Inflation Rate'] = gen.fmt(rng.uniform(0.01, 0.06))
+            q['Production Tax Credit Duration'] = max(2, int(q['Production Tax Credit Duration']))
+        chain = [(f'chain:{tag}', gen.to_text(q))]
+        pool = ['Inflation Rate'] + names if len(chains) % 2 == 0 else names
+        for nm, v in gen.neighbours(q, rng, pool[:1] + rng.sample(pool[1:], 3), 3):
+            chain.append((f'chain:{tag}~{nm}', gen.to_text(v)))
+        chains.append(chain)
     # ITC / grant / fee pairs
     npair = 40 if tier == 'quick' else 300
     pairs = []
@@ -121,7 +141,7 @@ def build_jobs(tier: str):
         pairs.append((tag, a, b))
         jobs.append((f'pairA:{tag}', gen.to_text(a)))
         jobs.append((f'pairB:{tag}', gen.to_text(b)))
-    return jobs, pairs
+    return jobs, pairs, chains
 
 
 def run(tier: str, replay_inputs: list | None = None) -> int:
@@ -142,11 +162,15 @@ def run(tier: str, replay_inputs: list | None = None) -> int:
     res.add_mc(d, f'Dump_Schedule_{tier}.cfg (M2 vector generation)')
     replay_vectors(res, vectors)
     # ---- M3
-    jobs, pairs = build_jobs(tier)
+    jobs, pairs, chains = build_jobs(tier)
     if replay_inputs is not None:
-        jobs, pairs = replay_inputs, []
-    out = sim.run_many(jobs, 'harness.c16:project')
+        jobs, pairs, chains = [], [], [replay_inputs]      # a replay re-runs the recorded history in one process, in its order
+    out = sim.run_many(jobs, 'harness.c16:project') + sim.run_chains(chains, 'harness.c16:project')
     by_tag = {o['tag']: o for o in out}
+    history = {}
+    for c in chains:
+        for k, (tg, _) in enumerate(c):
+            history[tg] = [list(x) for x in c[:k + 1]]
     traces = []
     meta = {}
     tid = 0
@@ -190,7 +214,7 @@ def run(tier: str, replay_inputs: list | None = None) -> int:
         for c in vd['f']:
             wit = [w for w in vd['w'] if w.get('clause') == c][:2]
             res.violation({'clause': c, 'input': m['tag']}, f'{c} fails on {m["tag"]}: {wit}',
-                          {'input_text': m['input'], 'input_a': m.get('input_a'), 'trace': t, 'verdict': vd})
+                          {'input_text': m['input'], 'input_a': m.get('input_a'), 'history': history.get(m['tag']), 'trace': t, 'verdict': vd})
     res.cov['clauses_evaluated_per_trace'] = clause_counts
     if traces:
         res.sample({'m3_trace': {k_: (v_ if k_ != 'products' else [dict(p, series=p['series'][:4] + ['...']) for p in v_])
@@ -216,7 +240,18 @@ def replay(path: str) -> int:
     if 'vector' in rp:
         res = Result('C16', 'quick')
         replay_vectors(res, [rp['vector']])
+        if res.violations:
+            return res.finish()
+        # alone the vector is reproduced: replay it where it failed, after every vector TLC dumps before it, in one process
+        d = tlc.run_tlc('Schedule', 'Dump_Schedule_quick.cfg', workers=1, coverage=False)
+        vectors = [p for p in d['prints'] if isinstance(p, dict) and 'price' in p]
+        res = Result('C16', 'quick')
+        replay_vectors(res, vectors)
+        same = lambda v: all(v[0].get(k) == rp['vector'].get(k) for k in ('L', 'dur', 's', 'start', 'end', 'r', 'P', 'adj', 'infl'))  # noqa: E731
+        res.violations = [v for v in res.violations if same(v)]
         return res.finish()
     if rp.get('input_a'):      # incentive pair: both members are needed, so the quick plan is executed again for this key
         return run('quick')
+    if rp.get('history'):      # a run judged after its neighbours in one process: the same history again
+        return run('quick', [tuple(x) for x in rp['history']])
     return run('quick', [('replay', rp['input_text'])])
